@@ -472,6 +472,48 @@ func init() {
 		l.p("/-- `mergeDescs` keeps a descriptor of the old set whose id the scan did not find (for one more scan): the loop over")
 		l.p("the old set stores into the result (repair of finding F61) -/")
 		l.p("def mergeKeepsMissedOneScan : Bool := %s", leanBool(keepsMissed))
+		// --- scanPaths' file list: a file under an included path is listed whatever its size (an emptied file must be SEEN
+		//     with size 0 by mergeDescs: `same_id_shrunk_restarts`); no guard of getFilesToScan / scanPaths that skips a file
+		//     looks at a size
+		anySize := false
+		if fd := sp.method("Scanner", "scanPaths"); fd == nil {
+			problem("scanner.Scanner.scanPaths not found")
+		} else {
+			evs := sp.flatten(fd, 2)
+			if flowIndex(evs, "call", "Stat") < 0 {
+				problem("scanner.Scanner.scanPaths: no os.Stat of the scanned files found in scanPaths and its callees")
+			} else {
+				anySize = true
+				for _, e := range evs {
+					if e.kind == "guard" && len(e.loops) > 0 && flowCallsNamed(guardCond(e.node), "Size") {
+						anySize = false
+					}
+				}
+			}
+		}
+		l.p("/-- `scanPaths` (with `getFilesToScan`) lists a file whatever its size: none of its skip branches looks at a size -/")
+		l.p("def scanListsFilesOfAnySize : Bool := %s", leanBool(anySize))
+		// --- persistState: every call that could marshal the descriptors hands them to the storage (the model's `persist` /
+		//     `finalPersist` steps write): between json.Marshal and WriteData the only branch that leaves is the marshal error
+		alwaysWrites := false
+		if fd := sp.method("Scanner", "persistState"); fd == nil {
+			problem("scanner.Scanner.persistState not found")
+		} else {
+			evs := sp.flatten(fd, 2)
+			iM, iW := flowIndex(evs, "call", "Marshal"), flowIndex(evs, "call", "WriteData")
+			if iM < 0 || iW < iM {
+				problem("scanner.Scanner.persistState: json.Marshal followed by storage.WriteData not found")
+			} else {
+				alwaysWrites = true
+				for i := iM + 1; i < iW; i++ {
+					if e := evs[i]; e.kind == "guard" && !isErrNotNil(guardCond(e.node)) {
+						alwaysWrites = false
+					}
+				}
+			}
+		}
+		l.p("/-- `persistState`: between `json.Marshal` and `storage.WriteData` only the marshal-error branch leaves: every save is written -/")
+		l.p("def persistAlwaysWrites : Bool := %s", leanBool(alwaysWrites))
 		// --- fix 5ccf34b: between the parser's open of the path and the start of the worker's goroutine the file is
 		//     identified again (utils.GetFileId) and compared with the descriptor's id; a difference ends the start
 		//     (guard whose body returns). Read from runWorker with its same-package callees inlined, so the check may
@@ -551,6 +593,28 @@ func init() {
 		l.p("def stateFileReplacedAtomically : Bool := %s", leanBool(atomicState))
 		l.write()
 	}
+}
+
+// guardCond: the condition of an if guard (its init statement included), or the case clause itself
+func guardCond(n ast.Node) ast.Node {
+	if is, ok := n.(*ast.IfStmt); ok {
+		if is.Init != nil {
+			return &ast.BlockStmt{List: []ast.Stmt{is.Init, &ast.ExprStmt{X: is.Cond}}}
+		}
+		return is.Cond
+	}
+	return n
+}
+
+// isErrNotNil: the condition is `<ident> != nil` (no init statement)
+func isErrNotNil(n ast.Node) bool {
+	b, ok := n.(*ast.BinaryExpr)
+	if !ok || b.Op != token.NEQ {
+		return false
+	}
+	_, l := b.X.(*ast.Ident)
+	r, rok := b.Y.(*ast.Ident)
+	return l && rok && r.Name == "nil"
 }
 
 // flowSelects: does the node contain a selector expression x.<sel>
